@@ -10,7 +10,7 @@ OCAML = os.path.join(VERIF, 'ocaml')
 HARNESS = os.path.join(VERIF, 'harness')
 BUILD = os.path.join(VERIF, '_build')
 WORK = os.path.join(VERIF, '_work')
-EVIDENCE = os.path.join(VERIF, 'evidence')
+EVIDENCE = os.environ.get('VERIF_EVIDENCE_DIR', os.path.join(VERIF, 'evidence'))
 KNOWN = os.path.join(VERIF, 'known_findings.txt')
 NCPU = os.cpu_count() or 4
 
@@ -380,6 +380,8 @@ def run_both(bdir, cases, tag, shards=None, timeout=3600):
             cid = case_id(line)
             a = ti.get(cid)
             b = tm.get(cid)
+            if a is not None:
+                a = [x for x in a if not (x and x[0].startswith('@'))]   # impl-only observations (oracle input)
             if a is None and b is None:
                 continue
             if a is None or b is None:
@@ -463,7 +465,7 @@ def write_evidence(pid, tier, level, coverage, assumptions, wall_s, violations):
 
 
 def write_replay(pid, name, payload):
-    d = os.path.join(VERIF, 'replays')
+    d = os.environ.get('VERIF_REPLAY_DIR', os.path.join(VERIF, 'replays'))
     os.makedirs(d, exist_ok=True)
     p = os.path.join(d, '%s-%s.json' % (pid, name))
     with open(p, 'w') as f:
